@@ -14,8 +14,11 @@ variable (fs : Str → Option Str) (resolve : Str → Str)
 inductive ExpandsD : Nat → List Str → List Str → Prop
   | nil (d : Nat) : ExpandsD d [] []
   | keep (d : Nat) (l : Str) (r r' : List Str) : isInclude l = false → ExpandsD d r r' → ExpandsD d (l :: r) (l :: r')
+  | nameless (d : Nat) (l : Str) (r r' : List Str) :
+      -- an INCLUDE line that names no file is no directive: it stays, and the parser reports the syntax error
+      isInclude l = true → includeName l = none → ExpandsD (d + 1) r r' → ExpandsD (d + 1) (l :: r) (l :: r')
   | incl (d : Nat) (l name text : Str) (inc r r' : List Str) :
-      isInclude l = true → includeName l = .ok name → fs (resolve name) = some text →
+      isInclude l = true → includeName l = some name → fs (resolve name) = some text →
       ExpandsD d (splitNL text) inc → ExpandsD (d + 1) r r' → ExpandsD (d + 1) (l :: r) (joinNL inc :: r')
 
 theorem splitNL_ne_nil (s : Str) : splitNL s ≠ [] := by
@@ -69,7 +72,12 @@ theorem expandWith_sound (d : Nat) (deeper : List Str → Res (List Str))
     split at h
     · rename_i hi
       split at h
-      · simp at h
+      · rename_i hn
+        split at h
+        · simp at h
+        · rename_i rest hr
+          injection h with h; subst h
+          exact .nameless d l r rest hi hn (ih rest hr)
       · rename_i name hn
         split at h
         · simp at h
@@ -121,6 +129,9 @@ theorem C15_complete (b : Nat) (ls out : List Str) (h : ExpandsD fs resolve b ls
     cases d with
     | zero => simp only [expandLines, expandWith, hl, Bool.false_eq_true, if_false] at ih ⊢; rw [ih]
     | succ d => simp only [expandLines, expandWith, hl, Bool.false_eq_true, if_false] at ih ⊢; rw [ih]
+  | nameless d l r r' hl hn _ ih =>
+    simp only [expandLines, expandWith, hl, if_true, hn] at ih ⊢
+    rw [ih]
   | incl d l name text inc r r' hl hn ht _ _ ih1 ih2 =>
     simp only [expandLines, expandWith, hl, if_true, hn, ht] at ih2 ⊢
     rw [ih1]
@@ -157,14 +168,14 @@ theorem C15_limit (ls : List Str) (h : ∃ l ∈ ls, isInclude l = true) :
 
 /-- a missing file is an I/O error -/
 theorem C15_missing (b : Nat) (l name : Str) (r : List Str) (hl : isInclude l = true)
-    (hn : includeName l = .ok name) (hm : fs (resolve name) = none) :
+    (hn : includeName l = some name) (hm : fs (resolve name) = none) :
     expandLines fs resolve (b + 1) (l :: r) = .error .ioError := by
   simp [expandLines, expandWith, hl, hn, hm]
 
 /-- cyclic inclusion never succeeds, whatever the budget: a file whose first INCLUDE names itself -/
 theorem C15_cycle (text : Str) (pre post : List Str) (l name : Str)
     (hs : splitNL text = pre ++ l :: post) (hpre : ∀ x ∈ pre, isInclude x = false)
-    (hl : isInclude l = true) (hn : includeName l = .ok name) (hf : fs (resolve name) = some text) :
+    (hl : isInclude l = true) (hn : includeName l = some name) (hf : fs (resolve name) = some text) :
     ∀ b, ∃ e, expandLines fs resolve b (splitNL text) = .error e := by
   have key : ∀ (sub : Option (List Str → Res (List Str))) (pre : List Str), (∀ x ∈ pre, isInclude x = false) →
       (∀ e, expandWith fs resolve sub (l :: post) = .error e → expandWith fs resolve sub (pre ++ l :: post) = .error e) := by
